@@ -365,9 +365,9 @@ func newJSModel(c *core.Ctx, R string) (jm *jsModel, m *scanModel, initial strin
 			if b, ok := st.Field(i).Type().Underlying().(*types.Basic); ok {
 				switch {
 				case b.Info()&types.IsBoolean != 0:
-					zero[st.Field(i).Name()] = constant.MakeBool(false)
+					zero[c.P.PinnedFieldName(nt, i)] = constant.MakeBool(false)
 				case b.Info()&types.IsInteger != 0:
-					zero[st.Field(i).Name()] = constant.MakeInt64(0)
+					zero[c.P.PinnedFieldName(nt, i)] = constant.MakeInt64(0)
 				}
 			}
 		}
